@@ -10,10 +10,10 @@ C = MOD + '/control.'
 ROOTS = [C + 'VerifC20Op', C + 'VerifC20Confine']
 META = dict(
     functions_encoded=['(*DSC).Copy/Move/Remove/AbsFiles', '(*Changes).Copy/Move/Remove/AbsFiles', 'internal.Copy', 'path.Join', 'path.Clean', 'filepath.Dir', 'filepath.Base'],
-    stubs=['package os and io.Copy on files: a deterministic filesystem model (engine/symgo/osmodel.py): paths -> file content | directory; failures are those a real filesystem gives for the modelled state (missing source, a directory where a file is expected, a directory in the way of the destination); every call is logged with its path'],
-    bounds={'quick': 'handles with k = 0..2 referenced files, both kinds, all three operations; fault configuration symbolic: every referenced file ok / missing / replaced by a directory (Copy), the control file likewise, a directory blocking any one destination name, a stale same-size file already at a destination name; confinement: one listed name ranging over every string of length 0..4 over {".", "/", "a"}',
+    stubs=['package os and io.Copy on files: a deterministic filesystem model (engine/symgo/osmodel.py): paths -> file content | directory | symbolic link (followed in the final component by open/create/stat/read, not by rename/remove/link); failures are those a real filesystem gives for the modelled state (missing source, a directory where a file is expected, a directory in the way of the destination); every call is logged with its path'],
+    bounds={'quick': 'handles with k = 0..2 referenced files, both kinds, all three operations; fault configuration symbolic: every referenced file ok / missing / replaced by a directory (Copy) / a relative symbolic link to the real file (Copy, Remove), the control file ok / missing / a directory, a directory blocking any one destination name, a stale same-size file already at a destination name; confinement: one listed name ranging over every string of length 0..4 over {".", "/", "a"}',
             'thorough': 'k = 0..3; listed names up to length 6'},
-    outside_claim=['faults a real filesystem produces only under resource exhaustion (ENOSPC, EIO at Close): they are not natively replayable in this sandbox and are not modelled', 'concurrent modification of the directories'],
+    outside_claim=['Move of a referenced file that is a relative symbolic link (rename(2) moves the link text; links are not in the statement\'s quantifier)', 'a control file opened through a symbolic link (which directory is then its own is not fixed by the statement)', 'faults a real filesystem produces only under resource exhaustion (ENOSPC, EIO at Close): they are not natively replayable in this sandbox and are not modelled', 'concurrent modification of the directories'],
     assumptions=['the destination exists and is a directory'])
 
 
@@ -40,8 +40,11 @@ def run_job(env, job):
         ctl, block, stale = z3.BitVec('ctl', 64), z3.BitVec('block', 64), z3.BitVec('stale', 64)
         assume = []
         allowed = {0: (0, 1, 2), 1: (0, 1), 2: (0, 1)}[op]
+        # state 3: the referenced file is a relative symbolic link (Copy must deliver the bytes, Remove takes the link);
+        # moving a relative link is outside the claim (the statement's quantifier has no links, and rename(2) keeps the link text)
+        allowed_f = allowed + ((3,) if op in (0, 2) else ())
         for i in range(3):
-            assume.append(z3.Or(*[s[i] == v for v in allowed]) if i < k else s[i] == 0)
+            assume.append(z3.Or(*[s[i] == v for v in allowed_f]) if i < k else s[i] == 0)
         assume.append(z3.Or(*[ctl == v for v in allowed]))
         assume.append(z3.And(block >= 0, block <= (k + 1 if op != 2 else 0)))
         assume.append(z3.And(stale >= 0, stale <= (k if op != 2 else 0)))
@@ -69,6 +72,9 @@ def validation_calls(env, seed):
     calls.append(('VerifC20Op', [1, 1, 1, 0, 0, 0, 0, 2, 0]))
     calls.append(('VerifC20Op', [0, 0, 2, 0, 0, 0, 0, 0, 1]))
     calls.append(('VerifC20Op', [1, 1, 1, 0, 0, 0, 0, 0, 1]))
+    calls.append(('VerifC20Op', [0, 0, 2, 3, 0, 0, 0, 0, 0]))
+    calls.append(('VerifC20Op', [0, 1, 2, 0, 3, 0, 0, 0, 2]))
+    calls.append(('VerifC20Op', [2, 0, 1, 3, 0, 0, 0, 0, 0]))
     calls.append(('VerifC20Confine', [0, 0, b'a']))
     calls.append(('VerifC20Confine', [1, 1, b'']))
     calls.append(('VerifC20Confine', [2, 1, b'aa']))
